@@ -1,6 +1,6 @@
 """C08: segment, node-list and textual representations are lossless."""
 import math, struct, itertools
-import vlib, gen
+import vlib, gen, kernels
 from beziers.point import Point
 from beziers.line import Line
 from beziers.quadraticbezier import QuadraticBezier
@@ -143,6 +143,8 @@ def correspond(ctx):
     res['samples'] = meta[:2]
     res['kinds'] = {'hand_models': 7}
     if res['failing']: res['first_disagreement'] = [meta[i] for i in res['failing'][:3]]
+    # the conversions as REGENERATED from the source (Gen/Nodelist.v; related to the hand model by Proofs/Bridge3.v), incl. the exceptions
+    kernels.merge_cross_check(res, 'C08', ['SegRep_toNodelist', 'SegRep_appendSegment', 'SegRep_fromNodelist'], ctx.n(40, 500), rng)
     return res
 
 
